@@ -82,6 +82,10 @@ theorem oci_cancelTimer_other (s : Stack) (own : Cb → Bool) (t : Option Nat) (
 @[simp] theorem oci_with_findLog (s : Stack) (x : List (Nat × Nat)) : oci { s with findLog := x } = oci s := rfl
 @[simp] theorem oci_with_findMarks (s : Stack) (x : List (Nat × Nat)) : oci { s with findMarks := x } = oci s := rfl
 @[simp] theorem oci_with_ansLog (s : Stack) (x : List (Nat × Addr × Nat × Nat)) : oci { s with ansLog := x } = oci s := rfl
+@[simp] theorem oci_with_lisLog (s : Stack) (x : List (LId × Bool × SvcKey × Addr)) : oci { s with lisLog := x } = oci s := rfl
+@[simp] theorem oci_logLis (s : Stack) (id : LId) (o : Bool) (k : SvcKey) (a : Addr) : oci (s.logLis id o k a) = oci s := rfl
+@[simp] theorem oci_with_lisDup (s : Stack) (x : Bool) : oci { s with lisDup := x } = oci s := rfl
+@[simp] theorem oci_markDup (s : Stack) (d : Bool) : oci (s.markDup d) = oci s := rfl
 @[simp] theorem oci_logAnswer (s : Stack) (i : Nat) (a : Addr) (d : Nat) : oci (s.logAnswer i a d) = oci s := rfl
 @[simp] theorem oci_markFind (s : Stack) (n : Nat) : oci (s.markFind n) = oci s := rfl
 @[simp] theorem oci_with_offLog (s : Stack) (x : List (Nat × OEv × Nat)) : oci { s with offLog := x } = oci s := rfl
@@ -289,13 +293,13 @@ theorem oci_stepFind (s : Stack) (tid : Tid) (t : TaskSt) (h : isOfferK tid.1 = 
   rw [foldl_pres oci _ (fun s p => by frame_cases)]
 
 @[simp] theorem oci_watchService (s : Stack) (f : Service) (l : Listener) : oci (s.watchService f l) = oci s := by
-  unfold watchService; simp only []; rw [oci_replay]; rfl
+  unfold watchService; simp only []; rw [oci_markDup, oci_replay]; rfl
 @[simp] theorem oci_stopWatchService (s : Stack) (f : Service) (l : Listener) : oci (s.stopWatchService f l) = oci s := by
   unfold stopWatchService; simp only []; split
   · simp
   · rw [oci_replay]; rfl
 @[simp] theorem oci_watchAllServices (s : Stack) (id : LId) : oci (s.watchAllServices id) = oci s := by
-  unfold watchAllServices; rw [oci_replay]; rfl
+  unfold watchAllServices; rw [oci_markDup, oci_replay]; rfl
 @[simp] theorem oci_stopWatchAllServices (s : Stack) (id : LId) : oci (s.stopWatchAllServices id) = oci s := by
   unfold stopWatchAllServices; split
   · simp
